@@ -244,6 +244,7 @@ def _store(lean_name, cls_name, rel, F):
         raise TranslateError(F, f"{cls_name}.write: the file object is not bound to `outputfile`")
     inner = wb[0].body
     extra = ""
+    dump_kw = {}
     if len(inner) == 1 and isinstance(inner[0], ast.Pass):
         body = "nothing"
     elif var is not None and len(inner) == 1 and _same(inner[0], "outputfile.write(value)"):
@@ -256,6 +257,9 @@ def _store(lean_name, cls_name, rel, F):
           and all(k.arg is not None and isinstance(k.value, ast.Constant) for k in inner[0].value.keywords)):
         body = "jsonDump"
         extra = ", ".join(f"{k.arg}={k.value.value!r}" for k in inner[0].value.keywords)
+        dump_kw = {k.arg: k.value.value for k in inner[0].value.keywords}
+        if len(dump_kw) != len(inner[0].value.keywords):
+            raise TranslateError(F, f"{cls_name}.write: json.dump is given a keyword twice")
     else:
         raise TranslateError(F, f"{cls_name}.write: unrecognised body: " + "; ".join(ast.unparse(s) for s in inner)[:300])
     if guard and body != "nothing":
@@ -303,7 +307,7 @@ def _store(lean_name, cls_name, rel, F):
                and isinstance(n.ctx, ast.Store)) != 1:
             raise TranslateError(F, f"{cls_name}: self.encoding is assigned more than once")
     return {"lean": lean_name, "cls": cls_name, "write": wargs, "read": rargs, "body": body, "guard": guard,
-            "readKind": rkind, "extra": extra, "hash": _h(_dump(cls))}
+            "readKind": rkind, "extra": extra, "dump_kw": dump_kw, "hash": _h(_dump(cls))}
 
 
 def _all(F):
@@ -398,6 +402,27 @@ def gen_textcodec():
                     f"/-- `encoding=self.encoding` is passed by {cn}.{side} -/",
                     f"def {pre}{S}PassesEncoding : Bool := {_b(a['encoding'])}", ""]
             info[f"{pre}{S}"] = {"newline": a["newline"], "encoding": a["encoding"]}
+    # ---- the options JsonFileStore passes to json.dump (the encoder model `Json.render` is parameterised by them)
+    kw = dict(stores["JsonFileStore"]["dump_kw"])
+    other = []
+    indent = kw.pop("indent", None)
+    if indent is not None and not (type(indent) is int and indent >= 0):
+        other.append(f"indent={indent!r}")
+        indent = None
+    ascii_ = kw.pop("ensure_ascii", True)
+    sort_keys = kw.pop("sort_keys", False)
+    for name, val in (("ensure_ascii", ascii_), ("sort_keys", sort_keys)):
+        if type(val) is not bool:
+            other.append(f"{name}={val!r}")
+    other += [f"{k}={v!r}" for k, v in sorted(kw.items())]
+    out += [f"/-- JsonFileStore.write: `json.dump(value, outputfile{', ' if stores['JsonFileStore']['extra'] else ''}{stores['JsonFileStore']['extra']})`: "
+            "`indent` (a non-negative int or absent/None) -/",
+            f"def jsonDumpIndent : Option Nat := {'none' if indent is None else f'some {indent}'}",
+            f"def jsonDumpEnsureAscii : Bool := {_b(ascii_ is True)}",
+            f"def jsonDumpSortKeys : Bool := {_b(sort_keys is True)}",
+            "/-- every other keyword argument given to json.dump (separators, default, cls, skipkeys, allow_nan ... none is modelled) -/",
+            "def jsonDumpOtherKeywords : List String := [" + ", ".join(lean_str(x) for x in other) + "]", ""]
+    info["jsonDump"] = {"indent": indent, "ensure_ascii": ascii_, "sort_keys": sort_keys, "other": other}
     for cn in ("BinaryFileStore", "PickleFileStore", "TouchFileStore"):
         s = stores[cn]
         for side in ("write", "read"):
